@@ -3,6 +3,7 @@ import AthlibVerif.Drv.Athlon
 import AthlibVerif.Drv.HJ
 import AthlibVerif.Drv.Cache
 import AthlibVerif.Drv.Uka
+import AthlibVerif.Drv.Implements
 /-!
 Line-protocol driver: one request per line (`area<TAB>cmd<TAB>arg…`), one reply per line.
 Imports only the import-free models and the generated data, so it also links as `lean_exe`.
@@ -18,6 +19,7 @@ def handle (st : DrvState) (line : String) : DrvState × String :=
   | "ath" :: rest => (st, handleAthlon rest)
   | "cache" :: rest => (st, handleCache rest)
   | "uka" :: rest => (st, handleUka rest)
+  | "imp" :: rest => (st, handleImplements rest)
   | "hj" :: rest => let (c, out) := handleHJ st.hj rest; ({ st with hj := c }, out)
   | _ => (st, "bad-area")
 
